@@ -1,16 +1,47 @@
 import Sucds.Proofs.IndexIter
+import Sucds.Proofs.UnaryIter
+import Sucds.Proofs.CompactVectorFull
+import Sucds.Props.C07
 /-! # C17 — iterators yield the stored sequence, stay exhausted, give truthful size hints (partial)
 
-Proved generically for the six index iterators (BitVector, CompactVector, DacsByte, DacsOpt,
-PrefixSummedEliasFano, WaveletMatrix), from the `access` specification of the container: `n` calls of
-`next` yield the stored list and then `None` forever, and at every step `size_hint` is exactly the
-number of remaining elements. Missing: the unary iterator (next / skip1 / skip0) and the Elias-Fano iterator. -/
+Proved:
+* the index iterators (`next` = `access(pos)` then `pos += 1`; `size_hint` = `(len − pos, Some(len − pos))`),
+  generically from the `access` specification of the container: `n` calls of `next` yield the stored list and
+  then `None` forever, and at every step `size_hint` is exactly the number of remaining elements —
+  instantiated for BitVector (C07) and CompactVector here, for DacsByte/DacsOpt in C10/C11;
+* the unary iterator: `unary_iter(p)` for every `p` (including `p = len`, `len % 64 = 0`, the empty vector) stands
+  at cursor `p`; `next` yields the set positions `≥ p` in increasing order and then `None` forever; from a
+  cursor established by `new`/`skip1`/`skip0`, `skip1(k)` / `skip0(k)` return the k-th set / unset position at or
+  after the cursor (`None` when there is none, after which every call answers `None`) and move the cursor
+  there; the `debug_assert!(buf != 0)` cannot fire.
+Missing: the Elias-Fano iterator and the PrefixSummedEliasFano / WaveletMatrix instances (their `access`
+theorems are in progress). Observation outside the property (mixed `next`/`skip0` is not quantified over):
+`skip0(0)` directly after `next()` returns the set position `next` just yielded (`UIter.skip0_after_next`). -/
 namespace Sucds.C17
-open Sucds Sucds.IndexIter
+open Sucds Sucds.Spec Sucds.IndexIter
 
 theorem index_iterators {α} (xs : List α) (acc : Nat → Option α) (hacc : ∀ i, i < xs.length → acc i = xs[i]?) :
     ∀ (n p : Nat), p ≤ xs.length →
       runN xs.length acc ⟨p⟩ n =
         (List.range n).map (fun j => (xs[p + j]?, (xs.length - (p + j), some (xs.length - (p + j))))) :=
   runN_spec xs acc hacc
+
+theorem bit_vector_iter : type_of% (@C07.iteration) := @C07.iteration
+theorem compact_vector_iter : type_of% (@CV.iter_spec) := @CV.iter_spec
+
+/-- `unary_iter(p)`: `n` calls of `next` yield the first `n` set positions `≥ p` (then `None` forever) -/
+theorem unary_next (c : Cfg) (bv : BV) (h : bv.Inv) (p n : Nat) :
+    UIter.nexts c bv n (UIter.new bv p) = .ok ((List.range n).map (selFrom bv.bitAt bv.len p)) :=
+  UIter.nexts_new c bv h p n
+
+theorem unary_new (bv : BV) (p : Nat) : UIter.RepAt bv (UIter.new bv p) p := UIter.new_rep bv p
+theorem unary_skip1 : type_of% (@UIter.skip1_ok) := @UIter.skip1_ok
+theorem unary_skip0 : type_of% (@UIter.skip0_ok) := @UIter.skip0_ok
+theorem unary_done_next : type_of% (@UIter.done_next) := @UIter.done_next
+theorem unary_done_skip1 : type_of% (@UIter.done_skip1) := @UIter.done_skip1
+theorem unary_done_skip0 : type_of% (@UIter.done_skip0) := @UIter.done_skip0
+
+/-- `selFrom P n cur k` is the k-th position `≥ cur` below `n` satisfying `P`: it enumerates exactly those positions -/
+theorem selFrom_meaning (P : Nat → Bool) (n cur q : Nat) :
+    (cur ≤ q ∧ q < n ∧ P q = true) ↔ ∃ k, selFrom P n cur k = some q := selFrom_complete P n cur q
 end Sucds.C17
